@@ -112,6 +112,24 @@ def r2_append_batch(ctx):
     stores = [n for n in walk_shallow(init) if isinstance(n, ast.Assign) and any(is_self_attr(t, "_mode") for t in n.targets)]
     ctx.ob("C02.R2", SINKS, "DiskSink.__init__", stores[0] if stores else init, "self._mode is the constructor's mode parameter",
            bool(stores) and all(unparse(s.value) == "mode" for s in stores), stmt="self._mode store")
+    # one open/close per batch: `with self:` sits inside the batch loop and encloses the write (for .gz this completes the member)
+    wr = ctx.fn(SINKS, "DiskSink.write")
+    withs = [w for w in walk_shallow(wr) if isinstance(w, ast.With) and any(unparse(i.context_expr) == "self" for i in w.items)]
+    ok = False
+    for w in withs:
+        in_batch_loop = any(isinstance(a, ast.While) and "_unfinished" in unparse(a.test) for a in _ancestors(w))
+        has_write = any(isinstance(c, ast.Call) and call_name(c) == "self._file.write" for c in walk_shallow(w))
+        batch_inside = any(isinstance(a, ast.While) for a in _ancestors(w)) and any(
+            isinstance(x, ast.Assign) and has_call(x.value, "_get_batch") and any(a is aw for a in _ancestors(x) for aw in _ancestors(w) if isinstance(aw, ast.While)) for x in walk_shallow(wr))
+        ok = ok or (in_batch_loop and has_write and batch_inside)
+    ctx.ob("C02.R2", SINKS, "DiskSink.write", withs[0] if withs else wr, "the file is opened and closed once per batch (`with self` inside the batch loop around the writes)", ok,
+           stmt="with self per batch")
+    exit_ = ctx.fn(SINKS, "DiskSink.__exit__")
+    ok = any(isinstance(c, ast.Call) and unparse(c.func) == "self._file.close" for c in walk_shallow(exit_)) and "self._count == 0" in unparse(exit_)
+    ctx.ob("C02.R2", SINKS, "DiskSink.__exit__", exit_, "leaving the outermost `with` closes the file", ok, stmt="__exit__ closes")
+    gb = ctx.fn(SINKS, "DiskSink._get_batch")
+    ok = "islice(lines, self._batch)" in unparse(gb)
+    ctx.ob("C02.R2", SINKS, "DiskSink._get_batch", gb, "a batch holds at most self._batch lines", ok, stmt="_get_batch")
     # the sink that is run is this sink: last element of the joined pipeline that is .run()
     runs = [c for c in walk_shallow(run) if isinstance(c, ast.Call) and isinstance(c.func, ast.Attribute) and c.func.attr == "run"
             and isinstance(c.func.value, ast.Call) and (call_name(c.func.value) or "").endswith("join")]
@@ -121,6 +139,11 @@ def r2_append_batch(ctx):
         vals = assigned_value(run, last.id) if isinstance(last, ast.Name) else []
         ok = bool(vals) and all(has_call(v, "DiskSink") for v in vals)
         ctx.ob("C02.R2", EXP, "Experiment.run", c, "the pipeline's sink is the DiskSink/ListSink selected by result_file", ok)
+
+
+def _ancestors(n):
+    from ..model import ancestors
+    return list(ancestors(n))
 
 
 # ------------------------------------------------------------------------------------------ R3
@@ -272,7 +295,9 @@ def r5_preamble(ctx):
     ctx.rule("C02.R5", "the restored Result reaches MakeTasks, TransactionEncode and the preamble choice; "
                        "the version/experiment lines are written only for a fresh file")
     run = ctx.fn(EXP, "Experiment.run")
-    vals = assigned_value(run, "restored")
+    from ..util import name_bound
+    rest = name_bound(run, lambda v: has_call(v, "from_file") or has_call(v, "from_save"), "restored")
+    vals = assigned_value(run, rest)
     from_file = [v for v in vals if has_call(v, "from_file") or has_call(v, "from_save")]
     ctx.ob("C02.R5", EXP, "Experiment.run", from_file[0] if from_file else run,
            "restored = Result.from_file(result_file) when the file exists", bool(from_file)
@@ -288,11 +313,12 @@ def r5_preamble(ctx):
         for c in cs:
             a = arg_or_kw(c, pos, "restored")
             ctx.ob("C02.R5", EXP, "Experiment.run", c, f"{callee} receives the restored Result",
-                   a is not None and unparse(a) == "restored")
-    pre = assigned_value(run, "preamble")
+                   a is not None and unparse(a) == rest)
+    pre_name = name_bound(run, lambda v: isinstance(v, ast.IfExp) and has_call(v, "Insert"), "preamble")
+    pre = assigned_value(run, pre_name)
     ok = False
     for v in pre:
-        if isinstance(v, ast.IfExp) and unparse(v.test) == "restored" and has_call(v.body, "Identity") \
+        if isinstance(v, ast.IfExp) and unparse(v.test) == rest and has_call(v.body, "Identity") \
                 and has_call(v.orelse, "Insert") and '"T0"' in ast.unparse(v.orelse).replace("'", '"'):
             ok = True
     ctx.ob("C02.R5", EXP, "Experiment.run", enclosing_stmt(pre[0]) if pre else run,
